@@ -55,6 +55,11 @@ class Undefined(RefError):
     """the standard gives the core no value here (NaN / infinity under `integer`)"""
 
 
+class ArgumentNotRepresentable(Unsupported):
+    """an argument is not a value of the core's own rounding context (the standard takes
+    arguments to be values of that precision; evaluators differ on what to do otherwise)"""
+
+
 class Diverged(Exception):
     pass
 
@@ -256,9 +261,10 @@ def x_int_round(a: X, how: str) -> X:
 # evaluator
 
 class Evaluator:
-    def __init__(self, max_steps: int = 20000):
+    def __init__(self, max_steps: int = 20000, ignore_props: bool = False):
         self.max_steps = max_steps
         self.steps = 0
+        self.ignore_props = ignore_props      # evaluate everything under binary64 / nearestEven
 
     def tick(self):
         self.steps += 1
@@ -277,12 +283,13 @@ class Evaluator:
         rest = form[1:]
         props = dict(DEFAULT_PROPS)
         i = 0
+        core_level = False
         while i < len(rest) - 1 and isinstance(rest[i], str) and rest[i].startswith(':'):
             key = rest[i][1:]
-            if key in ('precision', 'round'):
-                # arguments would be rounded under the core's own context: not emitted by
-                # the backend for the programs of this space
-                raise Unsupported('core-level rounding properties')
+            if key in ('precision', 'round') and not self.ignore_props:
+                # properties of the core are the rounding context of its whole body
+                props[key] = rest[i + 1]
+                core_level = True
             i += 2
         body = rest[i]
         if len(params) != len(args):
@@ -297,6 +304,15 @@ class Evaluator:
                 env[name] = a
             else:
                 env[p] = a
+        if core_level:
+            def check(a):
+                if isinstance(a, tuple):
+                    for x in a:
+                        check(x)
+                elif isinstance(a, X) and not rnd(a, props).same(a, zero_sign=False):
+                    raise ArgumentNotRepresentable(f'{a} under the core\'s context')
+            for a in args:
+                check(a)
         return self.ev(body, env, props)
 
     def _check_dims(self, a, dims, env):
@@ -382,7 +398,7 @@ class Evaluator:
     # annotation
     def op_bang(self, a, env, props):
         new, body = self.update_props(props, a)
-        return self.ev(body, env, new)
+        return self.ev(body, env, props if self.ignore_props else new)
 
     # arithmetic
     def _arith(self, a, n, env, props):
@@ -668,6 +684,6 @@ _MANGLE = {'!': 'bang', '+': 'add', '-': 'sub', '*': 'mul', '/': 'div', '<': 'lt
            '>=': 'ge', '==': 'eq', '!=': 'ne', 'let*': 'letstar', 'while*': 'whilestar', 'for*': 'forstar'}
 
 
-def evaluate(text: str, args: list, max_steps: int = 20000):
+def evaluate(text: str, args: list, max_steps: int = 20000, ignore_props: bool = False):
     """args: X | bool | nested tuples thereof.  Returns the same kinds."""
-    return Evaluator(max_steps).run(text, args)
+    return Evaluator(max_steps, ignore_props).run(text, args)
